@@ -786,7 +786,7 @@ func (e *eng) Op(f []string, line string, out *hx.Out) {
 				e.watches[len(e.watches)-1].fromTxn = true // no missed-change claim
 			}
 		}
-		emit("P:C04,C06,C01", "%s", res)
+		emit("P:C04,C06,C01,C05", "%s", res)
 	case "q":
 		txn, ok := e.source(f[1])
 		if !ok {
@@ -971,14 +971,25 @@ func (e *eng) Op(f []string, line string, out *hx.Out) {
 	case "regdup":
 		// registering a table under a name that is taken is rejected with the documented error and must leave
 		// the database usable (no lock may stay held)
-		_, err := statedb.NewTable(e.db, "t0", idIndex)
+		dup, err := statedb.NewTable(e.db, "t0", idIndex)
 		res := "other"
 		if err != nil && strings.Contains(err.Error(), statedb.ErrDuplicateTable.Error()) {
 			res = "duplicate"
 		} else if err == nil {
 			res = "accepted"
 		}
-		emit("P:C10,C05", "err=%s", res)
+		// the table value whose registration failed is not part of the database: it cannot be write-locked
+		// (WriteTxn panics with ErrTableNotRegistered)
+		bad := ""
+		if dup != nil && res == "duplicate" {
+			func() {
+				defer func() { recover() }()
+				w := e.db.WriteTxn(dup)
+				bad = " !BAD:C05:unregistered-table-write-locked"
+				w.Abort()
+			}()
+		}
+		emit("P:C10,C05", "err=%s%s", res, bad)
 	case "reginit":
 		tab, name := atoi(f[1]), f[2]
 		if e.wtxn == nil {
